@@ -38,6 +38,57 @@ fn usage() -> ! {
     std::process::exit(2);
 }
 
+/// The check itself runs in a child process with an address-space limit. The subject is real code that a change may
+/// turn into a memory hog or make abort: if the child does not end with one of the three regular exit codes, that is
+/// reported as a violation of the property being checked (with what the child was exploring), not as a crash of the
+/// machinery. On the unchanged tree the child never dies.
+fn supervise(id: &'static str, tier: Tier, seed: u64, level: &'static str, args: &[String]) -> i32 {
+    let exe = std::env::current_exe().expect("own path");
+    let progress = std::path::PathBuf::from(report::verif_root()).join("evidence").join(format!(".progress_{id}"));
+    let _ = std::fs::create_dir_all(progress.parent().unwrap());
+    let _ = std::fs::remove_file(&progress);
+    // 24 GiB of address space (the machine has 62 GB): an allocation failure then aborts the child before the kernel's
+    // OOM killer picks a victim of its own
+    let limit_kb: u64 = std::env::var("VERIF_AS_LIMIT_KB").ok().and_then(|v| v.parse().ok()).unwrap_or(24 << 20);
+    let status = std::process::Command::new("sh")
+        .arg("-c")
+        .arg(format!("ulimit -v {limit_kb} 2>/dev/null; exec \"$0\" \"$@\""))
+        .arg(&exe)
+        .args(args)
+        .env("VERIF_INNER", "1")
+        .env("VERIF_PROGRESS_FILE", &progress)
+        .status();
+    let status = match status {
+        Ok(s) => s,
+        Err(e) => {
+            eprintln!("MACHINERY-ERROR property={id} cannot start the checking process: {e}");
+            return 2;
+        }
+    };
+    if let Some(code) = status.code() {
+        if (0..=2).contains(&code) {
+            let _ = std::fs::remove_file(&progress);
+            return code;
+        }
+    }
+    let doing = std::fs::read_to_string(&progress).unwrap_or_else(|_| "(no progress note)".into());
+    let _ = std::fs::remove_file(&progress);
+    let mut ctx = Ctx::new(id, tier, seed, level);
+    let how = format!("{status}");
+    ctx.violation(report::Violation {
+        signature: "process/checking-process-died".into(),
+        what: format!(
+            "the process running the check ended abnormally ({how}: killed, aborted or out of memory) while exploring: {}. The subject code exhausted memory or aborted instead of returning.",
+            doing.chars().take(600).collect::<String>()
+        ),
+        replay: serde_json::json!({"kind": "process-died", "status": how, "exploring": doing.chars().take(2000).collect::<String>()}),
+    });
+    ctx.cov("exhaustive", false);
+    ctx.sample(serde_json::json!({"process_died": how}));
+    ctx.assume("the checking process died: the coverage of this run is unknown");
+    report::finish(ctx)
+}
+
 fn main() {
     mc::e1::install_panic_hook();
     let args: Vec<String> = std::env::args().collect();
@@ -77,6 +128,9 @@ fn main() {
                 eprintln!("unknown property {id}");
                 std::process::exit(2);
             };
+            if std::env::var_os("VERIF_INNER").is_none() {
+                std::process::exit(supervise(pid, tier, seed, level, &args[1..]));
+            }
             let mut ctx = Ctx::new(pid, tier, seed, level);
             let r = std::panic::catch_unwind(std::panic::AssertUnwindSafe(|| f(&mut ctx)));
             if r.is_err() {
